@@ -43,9 +43,8 @@ def newest(patterns):
 # Per-run obligations over models REGENERATED from the tree under test by a translator of
 # tools/pregen.d/ (coq/Gen/*.v).  They are re-checked, together with Props/Prop<id>.v, by the check of
 # every property listed here (the slice models of these properties use the AccessMode predicates).
-GEN_OBLIGATIONS = {
-    "C03": ["Gen/ObAcsPred.v"], "C05": ["Gen/ObAcsPred.v"], "C06": ["Gen/ObAcsPred.v"], "C07": ["Gen/ObAcsPred.v"],
-}
+GEN_OBLIGATIONS = {p: ["Gen/ObAcsPred.v"] for p in
+                   ("C01", "C02", "C03", "C04", "C05", "C06", "C07", "C08", "C09", "C10", "C16")}
 
 
 class Ctx:
